@@ -3,13 +3,13 @@
      reg(cb, pass)                      a teardown callback is registered (any route); pass = registered with pass_exception
      exit.begin(how, exc)               the block ends: how in {"return","exc","base","cancel"}, exc = id of the exception ("none"/"cancel")
      cb.begin(cb, hasarg, arg)          callback cb is invoked (with the argument it received, if any)
-     cb.end(cb, raised, exc, cancel)    callback cb (including any awaitable it returned) has finished; cancel = it re-raised the
+     cb.end(cb, raised, exc, cancel)    callback cb (including any awaitable it returned) has finished; callback ids are positive integers; cancel = it re-raised the
                                         backend's cancellation exception
      exit.end(kind, groups, exc, plainexc)   what left the block: kind in {"normal","exc","cancel","cancelgroup","group"};
                                         groups = every exception group found in it, as [members (ids), othersAllCancel]
      closed(v)                          Context.closed after the block                                                          *)
 EXTENDS Naturals, Sequences, FiniteSets
-MonInit == [stack |-> <<>>, pass |-> <<>>, closing |-> FALSE, blockexc |-> "none", running |-> "none",
+MonInit == [stack |-> <<>>, pass |-> <<>>, closing |-> FALSE, blockexc |-> "none", running |-> 0,
             ran |-> {}, raisedR |-> {}, anyCancel |-> FALSE, ended |-> FALSE, ok |-> TRUE, why |-> "", hits |-> {}]
 Fail(m, w) == [m EXCEPT !.ok = FALSE, !.why = w]
 Hit(m, h) == [m EXCEPT !.hits = @ \cup {h}]
@@ -23,7 +23,7 @@ MonNext(m, e) ==
     [] e.ev = "exit.begin" -> [m EXCEPT !.closing = TRUE, !.blockexc = e.exc]
     [] e.ev = "cb.begin" ->
          IF ~m.closing THEN Fail(m, "callback-ran-before-the-block-ended")
-         ELSE IF m.running # "none" THEN Fail(m, "callback-started-while-another-was-still-running")
+         ELSE IF m.running # 0 THEN Fail(m, "callback-started-while-another-was-still-running")
          ELSE IF e.cb \in m.ran THEN Fail(m, "callback-ran-twice")
          ELSE IF m.stack = <<>> \/ Top(m) # e.cb THEN Fail(m, "not-in-reverse-order-of-registration")
          ELSE IF m.pass[Len(m.pass)] /\ (~e.hasarg \/ e.arg # m.blockexc) THEN Fail(m, "wrong-exception-passed")
@@ -32,12 +32,12 @@ MonNext(m, e) ==
                         !.stack = SubSeq(@, 1, Len(@) - 1), !.pass = SubSeq(@, 1, Len(@) - 1)]
     [] e.ev = "cb.end" ->
          IF m.running # e.cb THEN Fail(m, "callback-ended-without-having-begun")
-         ELSE [Hit(m, IF e.raised THEN "cb-raised" ELSE "cb-ok") EXCEPT !.running = "none",
+         ELSE [Hit(m, IF e.raised THEN "cb-raised" ELSE "cb-ok") EXCEPT !.running = 0,
                         !.raisedR = IF e.raised /\ ~e.cancel THEN @ \cup {e.exc} ELSE @,
                         !.anyCancel = @ \/ (e.raised /\ e.cancel)]
     [] e.ev = "exit.end" ->
          IF m.stack # <<>> THEN Fail(m, "registered-callbacks-not-run")
-         ELSE IF m.running # "none" THEN Fail(m, "block-left-while-a-callback-was-running")
+         ELSE IF m.running # 0 THEN Fail(m, "block-left-while-a-callback-was-running")
          ELSE IF m.raisedR # {} THEN
               (IF e.kind # "group" \/ ~(\E i \in DOMAIN e.groups : m.raisedR \subseteq Range(e.groups[i].members) /\ e.groups[i].othersAllCancel)
                THEN Fail(m, "callback-exceptions-not-raised-together-in-one-group") ELSE [Hit(m, "grouped") EXCEPT !.ended = TRUE])
